@@ -99,6 +99,10 @@ class CallMixin:
     # ------------------------------------------------------------------ repository functions
     def call_function(self, qual, args, kwargs, st, node):
         fi = self.repo.func(qual)
+        for h in self.reg.attr_hooks:
+            r = h(self, 'decorated-call', (fi, args, kwargs, node), st)
+            if r is not None:
+                return r
         binding = self.bind_args(fi, args, kwargs, st)
         c = self.select_contract(qual, binding)
         if c is not None:
